@@ -156,6 +156,9 @@ def c01stepCore (s : State Tbl) (cmd : String) (args : List String) : State Tbl 
     match unhexChars h, CreateTable.Format.ofName d with
     | some cs, some dflt => (s, (CreateTable.loadFormat cs dflt).name)
     | _, _ => bad
+  -- SET @@<output flag> TO …  /  the flag on the command line: what is printed changes, the transaction state does not
+  -- (Props/C01Flags: `output_flags_never_change_state`)
+  | "setflag", [_, _] => (s, "ok|" ++ showState s)
   | "commit", [] => run .commit
   | "rollback", [] => run .rollback
   | "other", [p, c] => match p.toNat?, parseTbl c with | some p, some c => run (.other p c) | _, _ => bad
